@@ -642,6 +642,49 @@ def analyze(ctx, want):
         # discharged by: taken only under tid Some (the map closure), and writes keep the invariant
         ob("C05.d", "exit-unwrap:" + nm, nm in (roles["start"], roles["end"]),
            "unwrap of %s in the result closure: safe because end/type are only ever written together as Some (C05.a/C05.d) and the start is set before any candidate" % nm, fd.loc())
+    # The start may also be taken once, before the loop, as the index of the first element of a *copy* of the cursor
+    # (`char_indices.clone().next().map(|(i, _)| i)`): the copy yields what the cursor itself will yield first, so whenever the
+    # loop body runs (the cursor yielded an element) the start is Some(index of the first character), and it is never written again.
+    start_hoisted = False
+    sl_ = name2local.get(roles["start"])
+    if sl_ is not None and sl_ not in VLOC:
+        full_in_loop = [d for d in fd.defs().get(sl_, []) if not d["partial"] and d["bb"] in li[H_char]["body"]]
+        exh = S.Engine(fd, F, Model(), cut_edges=back, stop_blocks={H_char}, inline=GETTERS, desugar=KDESUGAR)
+        vals = []
+        for p in exh.run(0, init_params(fd, exh.fid)):
+            if p.end[0] == "stop":
+                vals.append((p, p.locals.get((exh.fid, sl_))))
+        if not full_in_loop and vals and any(v is not None and v[0] == "mapcall" for _, v in vals):
+            ok_h = True
+            pvh = M.Prov(fd)
+            for p, v in vals:
+                if v == none():
+                    continue
+                if v is None or v[0] != "mapcall" or not (v[2][0] == "sym" and str(v[2][1]).startswith("item@bb")):
+                    ok_h = False
+                    continue
+                # the element comes from `next` on a clone of the cursor parameter
+                bbn = int(str(v[2][1])[len("item@bb"):])
+                tn = fd.term(bbn)
+                src_ok = False
+                if tn["k"] == "call" and re.search(r"Iterator>::next$", M.call_name(tn)) and "CharIndices" in (tn.get("callee_self") or ""):
+                    e_ = pvh.operand(tn["args"][0])
+                    cl_ = [c for c in M.expr_calls(e_) if re.search(r"clone::Clone>::clone$", c[1])]
+                    src_ok = len(cl_) == 1 and "char_indices" in M.expr_leaf_names(e_) and not any(re.search(r"Iterator>::(skip|rev|nth|step_by|filter)", c[1]) for c in M.expr_calls(e_))
+                # and the closure projects the index out of the (index, char) pair
+                clo = v[1]
+                cfn = F.fns.get(clo[1])
+                proj_ok = False
+                if cfn is not None:
+                    exc = S.Engine(cfn, F, Model(), cut_edges=cfn.back_edges(), inline=GETTERS, desugar=KDESUGAR)
+                    ip = p.fork()
+                    ip.end = None
+                    ip.locals[(exc.fid, 1)] = ("ref", ("loc", clo, ()), False)
+                    ip.locals[(exc.fid, 2)] = ("sym", "PAIR")
+                    rs_ = [q.end[1] for q in exc.run(0, ip) if q.end[0] == "return"]
+                    proj_ok = bool(rs_) and all(r_ == ("field", ("sym", "PAIR"), "0") for r_ in rs_)
+                ok_h = ok_h and src_ok and proj_ok
+            start_hoisted = ok_h
     # match_start: set to Some(index) before the state loop whenever it is None
     ex = S.Engine(fd, F, Model(), cut_edges=back, inline=GETTERS, desugar=KDESUGAR)
     # start at the block that follows the Some edge of the CharIndices::next switch
@@ -687,6 +730,8 @@ def analyze(ctx, want):
                 if pv not in (("sym", INDEX), cur_index) or not was_none:
                     good = False
                     det = "match start := %s (must be the index of the first character, written only while it is None)" % S.vstr(val)
+        if start_hoisted:
+            good, n, det = True, max(n, 1), "start is the index of the first element of a copy of the cursor, taken once before the loop and never written again"
         ob("C07.a", "match-start-is-first-index", good and n > 0, det or "start is Some(first index) before candidates are examined (%d paths)" % n, fd.loc())
 
     # ------------------------------------------------------------------ scratch buffers and loop structure
@@ -707,7 +752,7 @@ def analyze(ctx, want):
         for nm in inc_names + [roles["start"]]:
             v = LOCAL_VAL(p, ex.fid, name2local[nm])
             inc_init[nm] = S.vstr(v) if v else None
-        ok_init = all(LOCAL_VAL(p, ex.fid, name2local[r]) == none() for r in (roles["tid"], roles["end"], roles["start"]))
+        ok_init = all(LOCAL_VAL(p, ex.fid, name2local[r]) == none() for r in (roles["tid"], roles["end"])) and (start_hoisted or LOCAL_VAL(p, ex.fid, name2local[roles["start"]]) == none())
         ob("C05.d", "incumbents-start-absent", ok_init, "initial incumbents: %s" % inc_init, fd.loc())
     # after the state loop: current := next, next emptied; stop when nothing is active
     # (region: exit of the middle loop -> back edge of the char loop / exit)
